@@ -253,9 +253,8 @@ def fifo(ctx):
 
 
 # ---------------------------------------------------------------------------
-def drain(ctx):
+def drain(ctx, rule='C04.drain'):
     R, p = ctx.r, ctx.p
-    rule = 'C04.drain'
     qc = p.cls(Q)
     if qc is None:
         R.bad(rule, Q, f'anchor missing: {Q}')
@@ -303,8 +302,32 @@ def drain(ctx):
     # flush: the popped state gets drained.set()
     pops = [c for c in calls_in(fl) if dotted(c.func) == 'self._connection_state.pop']
     sets = [c for c in calls_in(fl) if (dotted(c.func) or '').endswith('.drained.set')]
-    R.check(bool(pops) and bool(sets), rule, f'{Q}.flush | discarded state releases waiters',
-            'flush pops the per-connection state and sets its drained event', 'flush discards per-connection state without setting its drained event (drain() waits forever)', p.loc(fl))
+    pop_targets = set()
+    for n in ast.walk(fl):
+        if isinstance(n, (ast.Assign, ast.NamedExpr)) and isinstance(n.value, ast.Call) and dotted(n.value.func) == 'self._connection_state.pop':
+            pop_targets.add(dotted(n.targets[0]) if isinstance(n, ast.Assign) else dotted(n.target))
+
+    class FD(paths.Domain):
+        # value: (a state object was popped and exists, drained.set() called on it)
+        def event(self, node, v):
+            if isinstance(node, ast.Call) and (dotted(node.func) or '').endswith('.drained.set') and (dotted(node.func) or '').split('.')[0] in pop_targets:
+                return ((v[0], True),)
+            return (v,)
+
+        def assume(self, atom, truth, v):
+            t = norm(atom)
+            if t in pop_targets or (isinstance(atom, ast.NamedExpr) and dotted(atom.target) in pop_targets):
+                return ((truth, v[1]),)
+            if any(t == f'{x} is not None' for x in pop_targets):
+                return ((truth, v[1]),)
+            if any(t == f'{x} is None' for x in pop_targets):
+                return ((not truth, v[1]),)
+            return (v,)
+    fres = paths.run(fl, FD(), (None, False))
+    stuck = sorted(f'{k}: state {"exists" if v[0] else "unknown"}, drained not set' for k, st in fres.items() if not k.startswith('raise') for v in st if v[0] is not False and not v[1])
+    R.check(bool(pops) and bool(sets) and bool(pop_targets) and not stuck, rule, f'{Q}.flush | discarded state releases waiters',
+            'on every path on which flush pops an existing per-connection state it sets that state\'s drained event (whatever its in-flight count)',
+            'flush can discard a per-connection state without setting its drained event (e.g. when nothing was in flight but packets were queued): drain() of the closed connection waits forever', p.loc(fl), stuck[:3])
     # the event is cleared when a packet is accepted for the connection (queued) and when one is sent
     clears = {}
     for name, m in qc.methods.items():
